@@ -210,7 +210,7 @@ func adminCallback(app *vm.AdminDBApp, data []byte) error {
 }
 
 func newEvmReplica(vals []ValSpec, i int) *evmReplica {
-	return &evmReplica{replica: newReplica(initialSet(vals)), app: sharedApps[i]}
+	return &evmReplica{replica: newReplica(initialSet(vals), i), app: sharedApps[i]}
 }
 
 func (r *evmReplica) close() { r.rl.Stop() }
